@@ -17,7 +17,7 @@ RULE = ("exhaustive: every position 0..4095 of VOCAB_LIST (one case each), corne
         "every legacy mode x max_grid_size 1..50 (+ None) with every token of token_arr looked up, encode/decode of every single token / id of "
         "the modular vocabulary (legacy: every token/id of a seeded sample of sizes in quick, all sizes in thorough); random: token / id sequences of "
         "length 0..40 over the vocabulary and the same sequences with 1-3 unknown tokens / out-of-range ids (negative, >= len) spliced in; "
-        "non-trivial = position / non-empty sequence / n >= 2; distinct = distinct canonical case (position, n, (mode, n), (vocabulary, sequence)); later additions: tokenizers built in descending / interleaved size order, re-sized tokenizers with clear_cache, container helper calls, bracket tokens in joined strings, and corner_first_ndindex results shuffled and thinned in place by the caller before anything else is asked")
+        "non-trivial = position / non-empty sequence / n >= 2; distinct = distinct canonical case (position, n, (mode, n), (vocabulary, sequence)); later additions: tokenizers built in descending / interleaved size order, re-sized tokenizers with clear_cache, container helper calls, bracket tokens in joined strings, and corner_first_ndindex results shuffled and thinned in place by the caller before anything else is asked, ids carried by numpy arrays, 0-d arrays and torch tensors")
 ASSUMPTIONS = ["CPython `sorted` is stable and `np.ndindex(n, n)` is row-major (both validated for every n <= 50 on every run)",
                "dataclass field order of `_VOCAB_BASE` = base-class fields then `_VOCAB_FIELDS` in declaration order, names distinct (validated: the whole list is compared)",
                "`str(int)` = Lean `Nat.repr`/`Int.repr` (validated on every numeric token)",
